@@ -528,10 +528,14 @@ def r4(ctx):
     v = U(r[-1].node.value).replace(' ', '') if r else None
     gt = ('self.load>%s.load' % o, True) in fs or ('%s.load<self.load' % o, True) in fs
     ltc = ('self.load<%s.load' % o, True) in fs or ('%s.load>self.load' % o, True) in fs
+    eqf = ('self.load==%s.load' % o, False) in fs or ('self.load!=%s.load' % o, True) in fs or ('%s.load==self.load' % o, False) in fs
     if gt:
       seen['greater'] = v == 'False'
     elif ltc:
       seen['less'] = v == 'True'
+    elif eqf:
+      # loads differ: the answer is the comparison of the loads itself
+      seen['greater'] = seen['less'] = v in ('self.load<%s.load' % o, '%s.load>self.load' % o)
     else:
       seen['equal'] = v in ('self.index<%s.index' % o, '%s.index>self.index' % o)
   body_ = [x for x in lt.node.body if not (isinstance(x, ast.Expr) and isinstance(x.value, ast.Constant))]
